@@ -475,14 +475,21 @@ def _good_messages():
     return out
 
 
+def _bounded(fn, n):
+    """fn() under the line budget for an n byte input; -> (status, value):
+    a run-away (reported by check_parse for the same input) must not hold
+    up the tasks that only use the parser on the way"""
+    st, v, _n = meter.metered(fn, budget(n))
+    return st, v
+
+
 def _summary(raw):
     from txdbus import message as M
-    try:
-        m = M.parseMessage(raw, [3, 4])
+    st, m = _bounded(lambda: M.parseMessage(raw, [3, 4]), len(raw))
+    if st == 'ok':
         return ('ok', type(m).__name__, m.serial, repr(m.body),
                 getattr(m, 'member', None), getattr(m, 'path', None))
-    except Exception as e:
-        return ('exc', type(e).__name__)
+    return ('exc', type(m).__name__ if st == 'exc' else 'budget')
 
 
 def _task_aftermath(task):
@@ -518,11 +525,12 @@ def _task_aftermath(task):
         def present(n):
             for _ in range(n):
                 res.count('transitions')
-                try:
-                    M.parseMessage(raw, [3, 4])
-                except Exception:
-                    pass
-        present(20)
+                if _bounded(lambda: M.parseMessage(raw, [3, 4]),
+                            len(raw))[0] == 'budget':
+                    return False
+            return True
+        if not present(20):
+            continue        # unbounded on this input: check_parse says so
         gc.collect()
         held0 = tracemalloc.get_traced_memory()[0]
         present(100)
@@ -543,10 +551,7 @@ def _task_aftermath(task):
         for k in range(3):
             proto, _t = c04.make_server()
             proto.dataReceived(c04.SERVER_HS)
-            try:
-                proto.dataReceived(raw)
-            except Exception:
-                pass
+            _bounded(lambda: proto.dataReceived(raw), len(raw))
         # descriptors the hostile peer had sent along stay its own: another
         # connection that receives one descriptor and a message naming it
         # decodes its own
@@ -555,10 +560,7 @@ def _task_aftermath(task):
             hp.dataReceived(c04.SERVER_HS)
             hp.fileDescriptorReceived(101)
             hp.fileDescriptorReceived(102)
-            try:
-                hp.dataReceived(raw)
-            except Exception:
-                pass
+            _bounded(lambda: hp.dataReceived(raw), len(raw))
             gp, _t = c04.make_server()
             gp.dataReceived(c04.SERVER_HS)
             gp.fileDescriptorReceived(7)
@@ -671,13 +673,8 @@ def _copied(raw):
     parsed; None when the parse does not come back"""
     from txdbus import message as M
     cb = meter.CountingBytes(raw)
-    with core.Watchdog(120):
-        try:
-            M.parseMessage(cb, [3, 4])
-        except core.ExecutionTimeout:
-            return None
-        except Exception:
-            pass
+    if _bounded(lambda: M.parseMessage(cb, [3, 4]), len(raw))[0] == 'budget':
+        return None
     return cb.copied
 
 
